@@ -33,6 +33,12 @@ type deferred struct {
 	site ssa.Instruction
 }
 
+// mergeEdge is one way of entering a join block in an if-converted region.
+type mergeEdge struct {
+	pred *ssa.BasicBlock
+	cond *Term
+}
+
 type frame struct {
 	fn        *ssa.Function
 	caller    *frame
@@ -46,11 +52,8 @@ type frame struct {
 	visits    map[int]int
 	cur       ssa.Instruction
 	// if-conversion state: when set, phis in block read ite(mcond, fromT, fromF)
-	mcond        *Term
-	mpredT       *ssa.BasicBlock
-	mpredF       *ssa.BasicBlock
-	cmcond       *Term // merge active for the block being executed
-	cmT, cmF     *ssa.BasicBlock
+	merge  []mergeEdge // pending if-conversion for the next block
+	cmerge []mergeEdge // active for the block being executed
 	goroutineTop bool
 }
 
@@ -71,6 +74,7 @@ type Exec struct {
 	gevents    []ghostEvent
 	fresh      map[string]int
 	clockFloor *Term
+	spec    int // >0 while speculatively evaluating a pure region
 	// hooks
 	fnNames map[*ssa.Function]string
 }
@@ -115,6 +119,9 @@ func (ex *Exec) where(fr *frame) string {
 }
 
 func (ex *Exec) abort(kind, reason string) {
+	if ex.spec > 0 {
+		panic(&specAbort{})
+	}
 	panic(&abortPath{Kind: kind, Reason: reason})
 }
 
@@ -123,6 +130,9 @@ func (ex *Exec) unsupported(fr *frame, what string) {
 }
 
 func (ex *Exec) goPanicRuntime(msg string) {
+	if ex.spec > 0 {
+		panic(&specAbort{})
+	}
 	kind := "runtime:" + msg
 	w := ex.where(ex.X.curFrame)
 	panic(&goPanic{Val: &Iface{T: ex.P.runtimeErrorType(), V: ex.mkStr("runtime error: " + msg)}, Kind: kind, Where: w, Msg: msg})
@@ -208,8 +218,8 @@ func (ex *Exec) runFrame(fr *frame) {
 	for {
 		ex.X.curFrame = fr
 		b := fr.block
-		fr.cmcond, fr.cmT, fr.cmF = fr.mcond, fr.mpredT, fr.mpredF
-		fr.mcond = nil
+		fr.cmerge = fr.merge
+		fr.merge = nil
 		fr.visits[b.Index]++
 		if fr.visits[b.Index] > ex.X.MaxLoop {
 			ex.abort("unwind", fmt.Sprintf("loop bound %d exceeded in %s block %d", ex.X.MaxLoop, fr.fn, b.Index))
@@ -281,14 +291,158 @@ func (ex *Exec) runDefers(fr *frame) {
 	}
 }
 
-// trivialJumpTo reports whether block b consists of a single Jump to dst
-// and has exactly one predecessor.
-func trivialJumpTo(b, dst *ssa.BasicBlock) bool {
-	if len(b.Instrs) != 1 || len(b.Preds) != 1 {
+// specAbort ends a speculative (if-conversion) evaluation.
+type specAbort struct{}
+
+var pureModels = map[string]bool{
+	"strings.HasPrefix": true, "strings.HasSuffix": true, "strings.Contains": true,
+	"strings.ToUpper": true, "strings.ToLower": true,
+}
+
+func pureInstr(in ssa.Instruction) bool {
+	switch x := in.(type) {
+	case *ssa.DebugRef, *ssa.ChangeType, *ssa.Field, *ssa.Extract, *ssa.Index, *ssa.IndexAddr, *ssa.FieldAddr,
+		*ssa.MakeInterface, *ssa.ChangeInterface, *ssa.Slice:
+		return true
+	case *ssa.BinOp:
+		switch x.Op {
+		case token.QUO, token.REM, token.SHL, token.SHR:
+			return false
+		}
+		return true
+	case *ssa.UnOp:
+		switch x.Op {
+		case token.NOT, token.SUB, token.XOR, token.MUL:
+			return true
+		}
+		return false
+	case *ssa.TypeAssert:
+		return x.CommaOk
+	case *ssa.Convert:
+		return widthOf(x.Type()) != 255 && widthOf(x.X.Type()) != 255
+	case *ssa.Call:
+		if b, ok := x.Call.Value.(*ssa.Builtin); ok && (b.Name() == "len" || b.Name() == "cap") {
+			return true
+		}
+		if f := x.Call.StaticCallee(); f != nil && pureModels[f.String()] {
+			return true
+		}
 		return false
 	}
-	_, ok := b.Instrs[0].(*ssa.Jump)
-	return ok && b.Succs[0] == dst
+	return false
+}
+
+// interiorBlock reports whether b can be part of an if-converted region:
+// one predecessor, no phis, only pure instructions, ending in Jump or If.
+func interiorBlock(b *ssa.BasicBlock) bool {
+	if len(b.Preds) != 1 || len(b.Instrs) == 0 || len(b.Instrs) > 14 {
+		return false
+	}
+	for _, in := range b.Instrs[:len(b.Instrs)-1] {
+		if !pureInstr(in) {
+			return false
+		}
+	}
+	switch b.Instrs[len(b.Instrs)-1].(type) {
+	case *ssa.Jump, *ssa.If:
+		return true
+	}
+	return false
+}
+
+// region tries to if-convert the tree-shaped pure region hanging off an If.
+// It returns the join block and the list of (predecessor, condition) edges.
+func (ex *Exec) region(fr *frame, root *ssa.BasicBlock, c *Term) (*ssa.BasicBlock, []mergeEdge) {
+	var edges []mergeEdge
+	var join *ssa.BasicBlock
+	ok := true
+	budget := 24
+	ex.spec++
+	defer func() { ex.spec-- }()
+	var edge func(from, to *ssa.BasicBlock, cond *Term)
+	walk := func(b *ssa.BasicBlock, cond *Term) {
+		for _, in := range b.Instrs[:len(b.Instrs)-1] {
+			ex.visit(fr, in)
+		}
+		switch last := b.Instrs[len(b.Instrs)-1].(type) {
+		case *ssa.Jump:
+			edge(b, b.Succs[0], cond)
+		case *ssa.If:
+			cc, isT := ex.get(fr, last.Cond).(*Term)
+			if !isT {
+				ok = false
+				return
+			}
+			edge(b, b.Succs[0], ex.B.And(cond, cc))
+			edge(b, b.Succs[1], ex.B.And(cond, ex.B.Not(cc)))
+		}
+	}
+	edge = func(from, to *ssa.BasicBlock, cond *Term) {
+		if !ok {
+			return
+		}
+		if cond == ex.B.False {
+			return
+		}
+		budget--
+		if budget < 0 {
+			ok = false
+			return
+		}
+		if to != root && interiorBlock(to) && (join == nil || to != join) {
+			walk(to, cond)
+			return
+		}
+		if join == nil {
+			join = to
+		} else if join != to {
+			ok = false
+			return
+		}
+		edges = append(edges, mergeEdge{from, cond})
+	}
+	edge(root, root.Succs[0], c)
+	edge(root, root.Succs[1], ex.B.Not(c))
+	if !ok || join == nil || len(edges) < 2 {
+		return nil, nil
+	}
+	// phis of the join must be scalar-mergeable
+	for _, instr := range join.Instrs {
+		phi, isPhi := instr.(*ssa.Phi)
+		if !isPhi {
+			break
+		}
+		var first Value
+		for i, e := range edges {
+			v := ex.get(fr, phi.Edges[predIndex(join, e.pred)])
+			if i == 0 {
+				first = v
+				continue
+			}
+			if v == first {
+				continue
+			}
+			ta, ok1 := first.(*Term)
+			tb, ok2 := v.(*Term)
+			if !ok1 || !ok2 || ta.W != tb.W {
+				return nil, nil
+			}
+		}
+	}
+	return join, edges
+}
+
+func (ex *Exec) tryRegion(fr *frame, root *ssa.BasicBlock, c *Term) (join *ssa.BasicBlock, edges []mergeEdge) {
+	defer func() {
+		if r := recover(); r != nil {
+			if _, ok := r.(*specAbort); ok {
+				join, edges = nil, nil
+				return
+			}
+			panic(r)
+		}
+	}()
+	return ex.region(fr, root, c)
 }
 
 func (ex *Exec) doIf(fr *frame, in *ssa.If) *ssa.BasicBlock {
@@ -300,26 +454,17 @@ func (ex *Exec) doIf(fr *frame, in *ssa.If) *ssa.BasicBlock {
 		}
 		return b.Succs[1]
 	}
-	T, F := b.Succs[0], b.Succs[1]
-	// if-conversion of empty triangles / diamonds whose phis are scalar
-	var join, pT, pF *ssa.BasicBlock
-	switch {
-	case trivialJumpTo(T, F):
-		join, pT, pF = F, T, b
-	case trivialJumpTo(F, T):
-		join, pT, pF = T, b, F
-	case len(T.Succs) == 1 && trivialJumpTo(T, T.Succs[0]) && trivialJumpTo(F, T.Succs[0]):
-		join, pT, pF = T.Succs[0], T, F
-	}
-	if join != nil && ex.X.IfConvert && ex.phisMergeable(fr, join, pT, pF) {
-		fr.mcond, fr.mpredT, fr.mpredF = c, pT, pF
-		ex.X.merged++
-		return join
+	if ex.X.IfConvert {
+		if join, edges := ex.tryRegion(fr, b, c); join != nil {
+			fr.merge = edges
+			ex.X.merged++
+			return join
+		}
 	}
 	if ex.X.Branch(c) {
-		return T
+		return b.Succs[0]
 	}
-	return F
+	return b.Succs[1]
 }
 
 func predIndex(b, pred *ssa.BasicBlock) int {
@@ -329,29 +474,6 @@ func predIndex(b, pred *ssa.BasicBlock) int {
 		}
 	}
 	return -1
-}
-
-func (ex *Exec) phisMergeable(fr *frame, join, pT, pF *ssa.BasicBlock) bool {
-	iT, iF := predIndex(join, pT), predIndex(join, pF)
-	if iT < 0 || iF < 0 {
-		return false
-	}
-	for _, instr := range join.Instrs {
-		phi, ok := instr.(*ssa.Phi)
-		if !ok {
-			break
-		}
-		a, b := ex.get(fr, phi.Edges[iT]), ex.get(fr, phi.Edges[iF])
-		if a == b {
-			continue
-		}
-		ta, ok1 := a.(*Term)
-		tb, ok2 := b.(*Term)
-		if !ok1 || !ok2 || ta.W != tb.W {
-			return false
-		}
-	}
-	return true
 }
 
 // get evaluates an SSA value in a frame.
